@@ -1,7 +1,8 @@
 import Driver.Ver
 import Driver.Rx
 import Driver.Spec
+import Driver.SpecSet
 
 /-- every driver operation; each model area contributes its own table -/
 def allDriverOps : List (String × (List String → String)) :=
-  DriverVer.ops ++ DriverRx.ops ++ DriverSpec.ops
+  DriverVer.ops ++ DriverRx.ops ++ DriverSpec.ops ++ DriverSpecSet.ops
